@@ -76,14 +76,16 @@ Print Assumptions C01_spans_never_raises.
 (* THE EXCEPTIONS THAT CAN ESCAPE render(): from every session satisfying the invariant Sok (all reachable ones, below), for every
    source, fuel and option values with reserved-free replacement text, a failure of the API is one of
      ExIntTooLong   a macro parameter number of more than 4300 digits                    (known finding),
-     ExUnsupported  an author pattern outside the modelled regex subset (the comparison skips such cases),
-     ExFilter       the pattern of the indented-paragraph / macro-definition content filter not matching what the block
-                    pattern matched (never observed; not excluded by proof).
+     ExUnsupported  an author pattern outside the modelled regex subset (the comparison skips such cases).
    Unreachable, by proof: re.error, a non-participating group (readTo, list items, definition filters, inline filters),
    an index into an empty match (no line, list or block pattern matches the empty string or a lone backslash; the paragraph
    pattern takes at least the first character), an empty reader at every place that indexes the cursor, the quote assert,
-   int() of a malformed parameter number, an empty parameter list, the placeholder pop, the list-id stack pop. *)
-Theorem C01_raises_only : forall n src o s e, opts_ok o -> Sok s -> api_render n src o s = Raise e -> blk_exn e.
+   int() of a malformed parameter number, an empty parameter list, the placeholder pop, the list-id stack pop, and the two
+   asserts of the content filters of delimitedblocks.py (their searches succeed: the indented block's opening pattern has a
+   group 1 that must hold a non-space character; the macro-definition filter re-reads the name with a pattern built from
+   the same pieces as the opening pattern, found by the completeness of the matcher, Proofs/MatchExact.v, FilterLemmas.v). *)
+Theorem C01_raises_only : forall n src o s e, opts_ok o -> Sok s -> api_render n src o s = Raise e ->
+  e = ExIntTooLong \/ e = ExUnsupported.
 Proof. exact api_render_raises_only. Qed.
 Print Assumptions C01_raises_only.
 
